@@ -1,6 +1,9 @@
 // C12: independent generators on different threads (DESIGN.md C12).
 //   c12_threads stress <seed> <nthreads> <gadir|->      (TSan build: data races; any build: equality with sequential runs)
 //   c12_threads sched <calls_per_thread 1|2>             (plain build + hooks: deterministic enumeration of interleavings)
+//   c12_threads sweep <seed> <nthreads> <specfile> <nev> (TSan build: every thread walks ALL listed configurations - every published
+//                                                         background name and a sample of double-beta cells - so that any static storage
+//                                                         the library writes while generating is written by several threads)
 // The executable interposes gsl_set_error_handler(_off) and gsl_integration_qng (forwarding with dlsym(RTLD_NEXT));
 // they touch a plain shadow variable that stands for GSL's process-wide handler, so that ThreadSanitizer sees the
 // conflicting accesses that the uninstrumented libgsl performs on its own global.
@@ -11,7 +14,9 @@
 #include <cstdlib>
 #include <cstring>
 #include <dlfcn.h>
+#include <fstream>
 #include <functional>
+#include <sstream>
 #include <memory>
 #include <mutex>
 #include <thread>
@@ -330,10 +335,140 @@ static int run_stress(uint64_t seed, int nthreads)
   return 0;
 }
 
+// ------------------------------------------------------------------ sweep: all threads walk all configurations
+struct SweepCfg
+{
+  char kind;
+  std::string name;
+  int level = 0, mode = 0;
+  std::vector<double> thr;
+};
+
+static uint64_t sweep_one(const SweepCfg & c, uint64_t seed, int nev, std::string & err)
+{
+  uint64_t h = 1469598103934665603ULL;
+  try {
+    decay0_generator g;
+    if (c.kind == 'B') {
+      g.set_decay_category(decay0_generator::DECAY_CATEGORY_BACKGROUND);
+      g.set_decay_isotope(c.name);
+    } else {
+      g.set_decay_category(decay0_generator::DECAY_CATEGORY_DBD);
+      g.set_decay_isotope(c.name);
+      g.set_decay_dbd_level(c.level);
+      g.set_decay_dbd_mode((bxdecay0::dbd_mode_type)c.mode);
+    }
+    uint64_t stream = (hash_str(c.name) + (uint64_t)c.mode * 131 + (uint64_t)c.level) << 16;
+    Tape t(seed, stream);
+    g.initialize(t);
+    bxdecay0::event e;
+    auto shoot = [&]() {
+      t.rewind();
+      g.shoot(t, e);
+      h = (h ^ hash_str(event_json(e))) * 1099511628211ULL;
+    };
+    for (int i = 0; i < nev; i++) {
+      t.reseed(seed, ++stream);
+      shoot();
+    }
+    // the leading branch draws steered to each side of (a sample of) the scheme's branching thresholds
+    size_t step = std::max<size_t>(1, c.thr.size() / 24);
+    for (size_t k = 0; k < c.thr.size(); k += step)
+      for (size_t cell : {1, 2, 3})
+        for (double eps : {-1e-9, 1e-9}) {
+          double v = c.thr[k] + eps;
+          if (!(v > 0 && v < 1)) continue;
+          t.reseed(seed, ++stream);
+          t.pin(cell, v);
+          shoot();
+        }
+  } catch (std::exception & x) {
+    err = x.what();
+  }
+  return h;
+}
+
+static int run_sweep(uint64_t seed, int nthreads, const char * specfile, int nev)
+{
+  gsl_set_error_handler(sentinel_handler);
+  std::vector<SweepCfg> cfgs;
+  {
+    std::ifstream in(specfile);
+    std::string line;
+    while (std::getline(in, line)) {
+      if (line.empty()) continue;
+      std::istringstream ls(line);
+      SweepCfg c;
+      std::string k;
+      ls >> k >> c.name;
+      c.kind = k[0];
+      if (c.kind == 'B') {
+        double v;
+        while (ls >> v)
+          if (v > 0 && v < 1) c.thr.push_back(v);
+      } else {
+        ls >> c.level >> c.mode;
+      }
+      cfgs.push_back(c);
+    }
+  }
+  const int n = (int)cfgs.size();
+  std::atomic<int> ready{0};
+  std::atomic<bool> go{false};
+  std::vector<std::vector<uint64_t>> got(nthreads, std::vector<uint64_t>(n, 0));
+  std::vector<std::vector<std::string>> goterr(nthreads, std::vector<std::string>(n));
+  std::vector<std::thread> th;
+  for (int t = 0; t < nthreads; t++) {
+    th.emplace_back([&, t] {
+      t_id = t;
+      ready++;
+      while (!go.load()) std::this_thread::yield();
+      for (int k = 0; k < n; k++) {
+        // thread 0 walks forwards, thread 1 backwards, the others start at staggered offsets: every configuration is run by
+        // every thread, and neighbouring threads are inside the same scheme at about the same time at least once
+        int j = (t % 2 == 0) ? (k + (t / 2) * 3) % n : (n - 1 - ((k + (t / 2) * 3) % n));
+        got[t][j] = sweep_one(cfgs[j], seed, nev, goterr[t][j]);
+      }
+    });
+  }
+  while (ready.load() < nthreads) std::this_thread::yield();
+  go = true;
+  for (auto & x : th) x.join();
+  std::map<std::string, Mismatch> mm;
+  long streams = 0, refused = 0;
+  for (int j = 0; j < n; j++) {
+    if (!goterr[0][j].empty()) refused++;
+    for (int t = 1; t < nthreads; t++) {
+      streams++;
+      if (got[t][j] != got[0][j] || goterr[t][j] != goterr[0][j]) {
+        std::string lab = cfgs[j].kind == 'B' ? "bkg/" + cfgs[j].name : fmt("dbd/%s/L%d/m%d", cfgs[j].name.c_str(), cfgs[j].level, cfgs[j].mode);
+        std::string key = "sweep|threads-disagree|" + lab;
+        Mismatch & x = mm[key];
+        if (x.count++ == 0) {
+          x.key = key;
+          x.detail = fmt("%s: the event stream produced on thread %d differs from the one produced on thread 0 from the same tapes (errors '%s' vs '%s')", lab.c_str(), t,
+                         goterr[t][j].substr(0, 80).c_str(), goterr[0][j].substr(0, 80).c_str());
+        }
+      }
+    }
+  }
+  if (g_sentinel_calls.load() > 0) {
+    mm["sweep|default-handler-invoked"].key = "sweep|default-handler-invoked";
+    mm["sweep|default-handler-invoked"].detail = fmt("the process-wide GSL error handler was invoked %ld times during the concurrent sweep", g_sentinel_calls.load());
+    mm["sweep|default-handler-invoked"].count = g_sentinel_calls.load();
+  }
+  fprintf(OUT, "{\"mode\":\"sweep\",\"threads\":%d,\"configurations\":%d,\"refused\":%ld,\"streams\":%ld,\"qng_calls\":%ld,\"integration_with_handler_on\":%ld,", nthreads, n, refused, streams,
+          g_qng_calls.load(), g_i1_violations.load());
+  emit_mismatches(OUT, "mismatches", mm);
+  fprintf(OUT, "}\n");
+  return 0;
+}
+
 int main(int argc, char ** argv)
 {
   if (argc < 3) return 2;
   std::string mode = argv[1];
+  if (mode == "sweep" && argc >= 6) return run_sweep(strtoull(argv[2], 0, 10), atoi(argv[3]), argv[4], atoi(argv[5]));
   if (mode == "sched") return run_sched(atoi(argv[2]));
   if (mode == "stress") {
     if (argc > 4 && std::string(argv[4]) != "-") setenv("BXDECAY0_DBD_GA_DATA_DIR", argv[4], 1);
